@@ -165,7 +165,7 @@ func TestC15Direct(t *testing.T) {
 					if op == "untaint" {
 						sig = "C15:useless-update"
 					}
-					if s, _ := world.PreciseWrite(puts[0].Before, puts[0].Sent, puts[0].T, effect); s != "" {
+					if s, _ := world.PreciseWrite(puts[0].Before, puts[0].Sent, puts[0].T, puts[0].T, effect); s != "" {
 						sig = "C15:" + s
 					}
 					fail(rt, dumpPath(), sig, "update although the taint was %s\n%s", map[bool]string{true: "already present", false: "absent"}[hadEsc], desc())
@@ -176,7 +176,7 @@ func TestC15Direct(t *testing.T) {
 					if !p.OK() {
 						continue // refused by the API: nothing was written
 					}
-					if sig, msg := world.PreciseWrite(p.Before, p.Sent, p.T, effect); sig != "" {
+					if sig, msg := world.PreciseWrite(p.Before, p.Sent, p.T, p.T, effect); sig != "" {
 						fail(rt, dumpPath(), "C15:"+sig, "%s\n%s", msg, desc())
 					}
 				}
